@@ -107,7 +107,7 @@ REQUIRED_PROBES = {
     "C16": ["early_stop_hit", "best_not_last", "best_not_first", "tie_at_min", "nan_in_val", "inf_in_val", "max_epochs_0",
             "patience_0", "multi_val_batches", "multi_train_batches", "vi_steps_0", "nan_in_losses", "inf_in_losses", "ran_to_max"],
 }
-OPTIONAL_FAULTS = {"C15": ["loss_tie_at_min", "degenerate_zero_epochs_or_steps"]}
+OPTIONAL_FAULTS = {"C15": ["loss_tie_at_min", "degenerate_zero_epochs_or_steps", "loss_near_tie"]}
 
 # fault kinds each property's worlds can schedule (evidence lists only these)
 ENABLED_FAULTS = {
